@@ -50,3 +50,9 @@ def run(chk):
                             "unknown (nan) chunk sizes are covered end-to-end by C14/C28, not here"]
     finally:
         tlc.cleanup(rd)
+
+
+def replay(chk, path):
+    from ._plan import replay_case
+
+    return replay_case(chk, path)
